@@ -42,8 +42,8 @@ Definition parse_usize (s : list N) : option N :=
 (* resolve_id's temporary-id branch for items of kind k *)
 Definition temp_resolve (k : kind) (s : list N) : option N :=
   match s with
-  | 33 :: l :: rest =>
-      if N.eqb l (letter k) then
+  | c0 :: l :: rest =>
+      if N.eqb c0 33 && N.eqb l (letter k) then
         match parse_usize rest with
         | Some n => if n <? width k then Some n else None
         | None => None
